@@ -14,8 +14,8 @@ Spec == Init /\ [][Next]_l
 
 SetOf(seq) == {seq[i] : i \in 1..Len(seq)}
 RowAt(x) == [marker |-> x.marker, crash |-> x.crash, upload |-> x.upload, mode |-> x.mode, token |-> x.token, localOK |-> x.localOK]
-ExtAt(x) == [calls |-> x.calls, dbg |-> x.dbg, leak |-> x.leak, appCrash |-> x.appCrash]
-OutAt(x) == [sidecars |-> x.sidecars, uploaders |-> x.uploaders, nested |-> x.nested, unmarked |-> x.unmarked, launched |-> x.launched,
+ExtAt(x) == [calls |-> x.calls, dbg |-> x.dbg, leak |-> x.leak, appCrash |-> x.appCrash, startFail |-> x.startFail]
+OutAt(x) == [sidecars |-> x.sidecars, uploaders |-> x.uploaders, nested |-> x.nested, unmarked |-> x.unmarked, freshRemoved |-> x.freshRemoved, launched |-> x.launched,
              acquired |-> x.acquired, wrote |-> SetOf(x.wrote)]
 WellFormed(x) == RowAt(x) \in Rows /\ ExtAt(x) \in Extras /\ x.kind \in {"row", "seq", "race"}
 (* kind "row": one process (calling Start x.calls times); "seq": x.calls      *)
